@@ -160,6 +160,11 @@ def work_arrays(chunk):
             z = z.reshape(1, L)
         elif shape_kind == 'col':
             z = z.reshape(L, 1)
+        zin = z
+        if shape_kind == 'masked':
+            zin = np.ma.array(z)           # an ndarray subclass whose values are ordinary (nothing masked)
+        elif shape_kind == 'list':
+            zin = z.tolist()
         jc = dict(kind='array', g=gname, kernel=kname, z0=z0, pattern=pattern, shape=shape_kind)
         cell = ['array/%s' % pattern, 'array/shape-%s' % shape_kind]
         try:
@@ -167,15 +172,19 @@ def work_arrays(chunk):
                 warnings.simplefilter('ignore')
                 with np.errstate(all='ignore'):
                     direct = f(z)
-                    val, info = Limit(f, full_output=True)(z)
+                    val, info = Limit(f, full_output=True)(zin)
         except Exception as e:
             acc.case(tuple(jc.items()), nontrivial=True, cell=cell, outcome='raised')
             acc.violation('C18:Limit-array:raised-%s' % type(e).__name__, jc, '%s: %s' % (type(e).__name__, e), rank=L)
             continue
+        masked = np.ma.isMaskedArray(val) and bool(np.ma.getmaskarray(val).any())
+        val_shown = repr(val)
         val = np.asarray(val)
         est = np.asarray(info.error_estimate)
         prob = None
-        if val.shape != z.shape:
+        if masked:
+            prob = ('masked-result', 'result %s has masked entries (input: a masked array with nothing masked, %r)' % (val_shown, z.tolist()))
+        elif val.shape != z.shape:
             prob = ('shape', 'input shape %r, result shape %r' % (z.shape, val.shape))
         else:
             exact = gexact(gname, z0)
@@ -250,10 +259,14 @@ def work_arrays2(chunk):
             acc.case(tuple(sorted(jc.items(), key=str)), nontrivial=True, cell=cell, outcome='raised')
             acc.violation('C18:Limit-array:raised-%s' % type(e).__name__, jc, '%s: %s' % (type(e).__name__, e), rank=len(pattern))
             continue
+        masked = np.ma.isMaskedArray(val) and bool(np.ma.getmaskarray(val).any())
+        val_shown = repr(val)
         val = np.asarray(val)
         est = np.asarray(info.error_estimate)
         prob = None
-        if val.shape != z.shape:
+        if masked:
+            prob = ('masked-result', 'result %s has masked entries (input: a masked array with nothing masked, %r)' % (val_shown, z.tolist()))
+        elif val.shape != z.shape:
             prob = ('shape', 'input shape %r, result shape %r' % (z.shape, val.shape))
         else:
             # logical (C-order) positions, whatever the memory layout of z
@@ -469,7 +482,7 @@ def run(ctx):
         return 0
     patterns = [''.join(p) for L in (1, 2, 3) for p in itertools.product('SR', repeat=L)]
     ajobs = [(g, k, z0, pat, sk) for g in gsel[:2] for k in ks for z0 in z0s for pat in patterns
-             for sk in ('1d', '2d', 'col')]
+             for sk in ('1d', '2d', 'col', 'masked', 'list')]
     acc.merge(ctx.pmap(work_arrays, ajobs, chunk=50))
     pats2 = [''.join(p) for L in (2, 3, 4) for p in itertools.product('ABR', repeat=L) if 'A' in p and 'B' in p]
     a2 = [(g, 'sin(w)/w', 'expm1(w)/w', z0, pat, m, pth) for g in gsel[:2] for z0 in z0s[:2] + z0s[-1:] for pat in pats2
